@@ -108,7 +108,10 @@ EvScan ==
        /\ curs' = [curs EXCEPT ![e.c] = [pos |-> 0, zone |-> TRUE]]
     /\ UNCHANGED <<content, cfg>>
 
-TraceNext == EvReset \/ EvDict \/ EvWritten \/ EvOpen \/ EvCursor \/ EvOp \/ EvClone \/ EvForget \/ EvScan
+\* summary of an exhaustive exploration (informational)
+EvExplored == IsEvent("Explored") /\ UNCHANGED <<content, cfg, curs>>
+
+TraceNext == EvExplored \/ EvReset \/ EvDict \/ EvWritten \/ EvOpen \/ EvCursor \/ EvOp \/ EvClone \/ EvForget \/ EvScan
 
 TraceSpec == TraceInit /\ [][TraceNext]_vars
 
